@@ -24,7 +24,7 @@ def generate(tier, seed):
     cases = []
     for k in range(60 if tier == 'quick' else 600):
         pkg = pkgcase.gen_package(rng)
-        pkg['flux_unit'] = ['mJy', 'Jy', 'mJy'][k % 3]          # the SED files / the cube store their fluxes in mJy or in Jy
+        pkg['flux_unit'] = ['mJy', 'Jy', 'mJy', 'erg / (cm2 s)', 'mJy', 'erg / s'][k % 6]          # the unit the SED files / the cube store their fluxes in
         if k % 4 == 3 and len(pkg['names']) >= 2:
             pkgcase.own_grids(rng, pkg)       # per-file package whose SEDs are not all on one grid (no cube form exists)
         nb = len(pkg['filters'])
@@ -127,8 +127,8 @@ def _exact_row(pkg, k, n, norm_resp):
         e1, e2 = min(max(e1, fmin), fmax), min(max(e2, fmin), fmax)
         R.append(c06._G(pts, e2) - c06._G(pts, e1))
     sd = pkg['seds'][n]
-    ku = pkgcase.UNIT_MJY[pkg.get('flux_unit', 'mJy')]
-    return [sum(F(x) * ku * r for x, r in zip(row, R)) for row in sd['flux']], [sum((F(x) * ku * r) ** 2 for x, r in zip(row, R)) for row in sd['err']]
+    nus = sd.get('nu', pkg['nu'])
+    return [sum(pkgcase.to_mjy(pkg, x, v) * r for x, v, r in zip(row, nus, R)) for row in sd['flux']], [sum((pkgcase.to_mjy(pkg, x, v) * r) ** 2 for x, v, r in zip(row, nus, R)) for row in sd['err']]
 
 
 def judge(case, im, mo):
